@@ -12,7 +12,7 @@
 //!   {"op":"advance","ms":N}              advance virtual time
 //! Any JSON string containing "$ROOT" has it replaced by the file URI of <root-dir>.
 //!
-//! Output: NDJSON events in observation order
+//! Output: NDJSON events in observation order (with --results first {"ev":"caps","caps":ServerCapabilities})
 //!   {"ev":"reset","run":K}
 //!   {"ev":"csend","kind":"req"|"notif"|"resp","id":N?,"method":M?}      client -> server, as delivered
 //!   {"ev":"held","id":N,"ok":bool}                                        (sched) task of N parked
@@ -258,6 +258,11 @@ fn main() {
     let f = std::io::BufReader::new(std::fs::File::open(cases).expect("open cases"));
     let stdout = std::io::stdout();
     let mut w = std::io::BufWriter::new(stdout.lock());
+    if results {
+        // what the server advertises to the client the sessions are created for (legend etc.)
+        let caps = hook::server_capabilities(&lsp_types::ClientCapabilities::default());
+        writeln!(w, "{}", json!({"ev":"caps","caps":serde_json::to_value(&caps).unwrap_or(Value::Null)})).unwrap();
+    }
     for line in f.lines() {
         let line = line.unwrap();
         if line.trim().is_empty() {
